@@ -1,10 +1,85 @@
 import KawinV.Proto
-/-! driver verbs for C05 (stub: no verbs yet) -/
+import KawinV.Model.Solver
+import KawinV.Model.Flatten
+/-! driver verbs for C05: the solve loop on `Float` with a scripted user model, and
+flatten/unflatten of nested states (single model and Coupler).
+
+State encoding (both directions): `<n> item*`, item = `S <double>` | `A <rank> d1 … dr <len> <double>*`. -/
 namespace KawinV.Drv.C05
-open KawinV.Proto
+open KawinV.Proto KawinV.Solver KawinV.Flatten
+
+/-- a Python float as the model's proposal type -/
+def toDt (x : Float) : Dt Float :=
+  if x.isNaN then .nan
+  else if x.isInf then (if x > 0.0 then .posInf else .negInf)
+  else .fin x
+
+/-- sol.run t0 tf minFrac maxFrac proposals(list, used cyclically by step index) stops(list of T/F by
+step index, F beyond) fuel → nsteps stop cur dtmax times(oldest first) dts(oldest first) -/
+def solRun : P String := do
+  let t0 ← flt; let tf ← flt; let mn ← flt; let mx ← flt
+  let props ← flts; let stops ← lst bool; let fuel ← nat
+  let pa := props.toArray; let sa := stops.toArray
+  let propose : List Float → Dt Float := fun h =>
+    if pa.size == 0 then .fin 0.0 else toDt (pa.getD (h.length % pa.size) 0.0)
+  let stopAt : List Float → Bool := fun h => sa.getD (h.length - 1) false
+  let s := solve t0 tf mn mx propose stopAt fuel
+  pure s!"{s.steps.length} {bstr s.stop} {fout s.cur} {fout s.dtmax} {flist s.times.reverse} {flist s.dts.reverse}"
+
+def item : P (Item Float) := do
+  let k ← tok
+  if k == "S" then
+    let x ← flt; pure (.scalar x)
+  else if k == "A" then
+    let sh ← lst nat; let d ← flts; pure (.arr sh d)
+  else failure
+
+def state : P (List (Item Float)) := lst item
+
+def encItem : Item Float → String
+  | .scalar x => s!"S {fout x}"
+  | .arr sh d => s!"A {" ".intercalate (toString sh.length :: sh.map toString)} {flist d}"
+
+def encState (X : List (Item Float)) : String :=
+  " ".intercalate (toString X.length :: X.map encItem)
+
+def encOpt : Option (List (Item Float)) → String
+  | none => "E"
+  | some X => encState X
+
+/-- flat.rt state → flat(list) then unflatten(flatten X, X) -/
+def rt : P String := do
+  let X ← state
+  let f := flatten X
+  pure s!"{flist f} {encOpt (unflatten f X)}"
+
+/-- flat.un flat(list) ref-state → unflatten flat ref -/
+def un : P String := do
+  let f ← flts; let X ← state
+  pure (encOpt (unflatten f X))
+
+def encStates : Option (List (List (Item Float))) → String
+  | none => "E"
+  | some Xs => " ".intercalate (toString Xs.length :: Xs.map encState)
+
+/-- flat.c states(list) → sizeRef, flat, unflattenC (round trip) -/
+def coup : P String := do
+  let Xs ← lst state
+  let (f, ss) := flattenC Xs
+  pure s!"{" ".intercalate (toString ss.length :: ss.map toString)} {flist f} {encStates (unflattenC f ss Xs)}"
+
+/-- flat.cu flat(list) sizes(list) refs(list of states) → unflattenC flat sizes refs -/
+def coupUn : P String := do
+  let f ← flts; let ss ← lst nat; let Xs ← lst state
+  pure (encStates (unflattenC f ss Xs))
 
 def handle (verb : String) : Option (P String) :=
   match verb with
+  | "sol.run" => some solRun
+  | "flat.rt" => some rt
+  | "flat.un" => some un
+  | "flat.c" => some coup
+  | "flat.cu" => some coupUn
   | _ => none
 
 end KawinV.Drv.C05
